@@ -46,7 +46,20 @@ class EqNode(NodeMixin):
         return "E%d" % self.label
 
 
-CLASSES = {"nm": PNode, "light": LNode, "eq": EqNode}
+class FalsyNode(PNode):
+    """container-like user class: every node is falsy and has length 0 (and is a node nevertheless)"""
+
+    def __bool__(self):
+        return False
+
+    def __len__(self):
+        return 0
+
+    def __repr__(self):
+        return "F%d" % self.label
+
+
+CLASSES = {"nm": PNode, "light": LNode, "eq": EqNode, "falsy": FalsyNode}
 
 
 def build(tree, cls=PNode, parent=None, index=None):
